@@ -53,6 +53,10 @@ def classes_of(case, lengths, widths):
 
 
 def body_api(case, rec):
+    import io
+
+    from tola.fasta.stream import FastaStream
+
     data = gen.fasta_bytes(case["fasta"])
     recs = ref.read_fasta(data)
     seqs = {r["name"]: r["seq"] for r in recs}
@@ -60,6 +64,8 @@ def body_api(case, rec):
     cl = classes_of(case, None, widths)
     rec.note(case, bool(cl & {"row_crosses_line_and_chunk", "minus_row_longer_than_buffer", "gap_longer_than_buffer"}), cl)
     asm = conv.mk_assembly("a", case["scaffolds"])
+    half = max(1, len(case["scaffolds"]) // 2)
+    parts = [case["scaffolds"][:half], case["scaffolds"][half:]]
     with fa.TempFasta(data) as path:
         fai = FastaIndex(path, case["buffer"])
         fai.index = fa.ref_index(data)
@@ -67,10 +73,24 @@ def body_api(case, rec):
             got = must(fa.stream_bytes, fai, asm, case["line_length"], what="FastaStream.write_assembly")
         finally:
             fa.close(fai)
+        # one stream object used for two outputs (its public `out` attribute re-pointed in between)
+        fai2 = FastaIndex(path, case["buffer"])
+        fai2.index = fa.ref_index(data)
+        try:
+            first_out, second_out = io.BytesIO(), io.BytesIO()
+            stream = FastaStream(first_out, fai2, line_length=case["line_length"])
+            must(stream.write_assembly, conv.mk_assembly("a", parts[0]), what="write_assembly")
+            stream.out = second_out
+            must(stream.write_assembly, conv.mk_assembly("b", parts[1]), what="write_assembly (second output)")
+        finally:
+            fa.close(fai2)
     want = ref.apply_agp_to_fasta(seqs, case["scaffolds"], case["line_length"])
     if got != want:
         k = next((i for i, (x, y) in enumerate(zip(got, want)) if x != y), min(len(got), len(want)))
         raise Violation(f"streamed FASTA differs from the reference at byte {k}: got {got[max(0, k - 20) : k + 20]!r} want {want[max(0, k - 20) : k + 20]!r} (lengths {len(got)}/{len(want)})")
+    for n_, (o, p_) in enumerate(zip((first_out, second_out), parts)):
+        if o.getvalue() != ref.apply_agp_to_fasta(seqs, p_, case["line_length"]):
+            raise Violation(f"one FastaStream used for two outputs: output {n_ + 1} does not hold exactly its own assembly")
 
 
 def parse_fasta_records(data: bytes):
